@@ -15,16 +15,20 @@ namespace detail {
 template <typename T>
 [[nodiscard]] constexpr auto nextafter(T from, T to) -> T
 {
-    using U             = etl::conditional_t<sizeof(T) == 4U, etl::uint32_t, etl::uint64_t>;
-    auto const fromBits = etl::bit_cast<U>(from);
-    auto const toBits   = etl::bit_cast<U>(to);
-    if (toBits == fromBits) {
+    using U = etl::conditional_t<sizeof(T) == 4U, etl::uint32_t, etl::uint64_t>;
+    if (from != from or to != to) {
+        return from + to;
+    }
+    if (from == to) {
         return to;
     }
-    if (toBits > fromBits) {
-        return etl::bit_cast<T>(fromBits + 1);
+    if (from == T(0)) {
+        auto const tiny = etl::bit_cast<T>(U(1));
+        return to > T(0) ? tiny : -tiny;
     }
-    return etl::bit_cast<T>(fromBits - 1);
+    // moving away from zero increments the magnitude bits, moving towards zero decrements them
+    auto const fromBits = etl::bit_cast<U>(from);
+    return etl::bit_cast<T>((from < to) == (from > T(0)) ? fromBits + 1 : fromBits - 1);
 }
 } // namespace detail
 
